@@ -1,6 +1,26 @@
 """C18 worker: ordered pairs of models (BQM in three dtypes, BQM vartype views, QM, CQM,
 CQM objective / constraint views, numbers, foreign objects); observes is_equal in both
-directions, == / != where they mean equality, is_almost_equal for places 0, 3, 7."""
+directions, == / != where they mean equality, is_almost_equal for three `places` drawn from
+{0,1,2,3,4,5,7,8} (keyword or positional) and for the default.
+
+Coverage of the property text, clause by clause (stream -> what it reaches):
+  any mix of BQM/QM/CQM/views   gen_spec forms x forms, `fresh` (unrelated pairs), `none` (same content in
+                another representation / dtype), numbers and foreign objects on the right, models swapped 50%
+  same labels, vartypes, offset, linear, quadratic   single-field mutations offset / bias / qbias / label /
+                vartype / addzero / dropq / zeroq / dropvar / switch (degree-preserving change of the
+                interaction set), each by a LARGE difference or by a dyadic difference lying between the
+                rounding thresholds of two adjacent `places` (2^-6 ... 2^-26), so every `places` value asked
+                is separated from its neighbours and from the default 7
+  CQM: constraint labels, senses, rhs   sense / rhs / clabel / cperm / clhs / dropc / addc / soft / penalty /
+                discmark / unusedvar; constraints over subsets of the objective's variables AND over a
+                variable that occurs in constraints only (`conly`, with or without an interaction)
+  order / dtype irrelevance    permute, cperm, bqm64/bqm32/bqmobj/qm/qm32
+  totality      disjoint labels of equal shape (`disjoint`), zero-bias variable only on one side with the other
+                side's label registered in the parent CQM (`zerovar`), foreign objects, numbers
+  reflexive / symmetric   `none` pairs, both directions of is_equal compared with each other and with the spec
+  == / !=       BQM receivers (the only class where they mean equality)
+Not reached: labels equal across types (1 / 1.0 / True), NaN / inf biases, negative `places`, bounds (outside the
+documented scope), is_almost_equal in the b->a direction on the same pair (covered statistically by the swap)."""
 import copy
 from fractions import Fraction
 import numpy as np
@@ -18,6 +38,22 @@ SCOQ = {'<=': 'Le', '>=': 'Ge', '==': 'Eq'}
 
 def q4(rng):
     return Fraction(rng.randint(-8, 8), rng.choice([1, 1, 2, 4]))
+
+
+# differences a single-field change makes: large ones (every `places` sees them), and dyadic ones that lie
+# between the thresholds of is_almost_equal (0.5 * 10**-places): 2^-6 rounds away at places <= 1, 2^-11 and
+# 2^-12 at places <= 3, 3*2^-12 at places <= 2, 2^-26 at places <= 7 (and is lost in float32 storage)
+BIG_DELTAS = [Fraction(1, 4), Fraction(1), Fraction(-1, 2)]
+TINY_DELTAS = [Fraction(1, 64), Fraction(-1, 2048), Fraction(1, 2048), Fraction(3, 4096), Fraction(1, 4096),
+               Fraction(1, 1 << 15), Fraction(1, 1 << 18), Fraction(-1, 1 << 22), Fraction(1, 1 << 22),
+               Fraction(1, 1 << 26), Fraction(-1, 1 << 26)]   # every adjacent pair of PLACES_POOL is separated
+
+
+def delta(rng):
+    return rng.choice(BIG_DELTAS) if rng.random() < 0.6 else rng.choice(TINY_DELTAS)
+
+
+PLACES_POOL = [0, 1, 2, 3, 4, 5, 7, 8]
 
 
 def rand_desc(rng, single=None, nmin=0, nmax=4):
@@ -54,12 +90,20 @@ def forms_for(desc):
 
 def rand_constraints(rng, desc):
     cons = []
+    conly_vt = rng.choice(['BINARY', 'SPIN', 'INTEGER', 'REAL'])
     for i in range(rng.randint(0, 3)):
         keep = [v for v in desc["vars"] if rng.random() < 0.7]
         ks = {str(v[0]) for v in keep}
         d = {"vars": keep, "lin": [[v[0], str(q4(rng))] for v in keep],
              "quad": [t for t in desc["quad"] if str(t[0]) in ks and str(t[1]) in ks and rng.random() < 0.5],
              "off": str(q4(rng) if rng.random() < 0.3 else Fraction(0))}
+        if rng.random() < 0.3:
+            # a variable that occurs in this constraint only (not in the objective); the same label in every
+            # constraint that has one, so its vartype is consistent across the CQM
+            d["vars"] = d["vars"] + [["conly", conly_vt]]
+            d["lin"] = d["lin"] + [["conly", str(q4(rng) if rng.random() < 0.8 else Fraction(0))]]
+            if d["vars"][0][0] != "conly" and d["vars"][0][1] != 'REAL' and conly_vt != 'REAL' and rng.random() < 0.4:
+                d["quad"] = d["quad"] + [[d["vars"][0][0], "conly", str(q4(rng))]]
         cons.append({"label": f"c{i}", "sense": rng.choice(SENSES), "rhs": str(q4(rng)), "lhs": d})
     return cons
 
@@ -156,13 +200,13 @@ def mutate(rng, spec):
     k = rng.choice(kinds)
     s["mut"] = k
     if k == 'offset':
-        d["off"] = str(F(d["off"]) + rng.choice([Fraction(1, 4), 1, Fraction(-1, 2)]))
+        d["off"] = str(F(d["off"]) + delta(rng))
     elif k == 'bias':
         t = rng.choice(d["lin"])
-        t[1] = str(F(t[1]) + rng.choice([Fraction(1, 4), 1, Fraction(-1, 2)]))
+        t[1] = str(F(t[1]) + delta(rng))
     elif k == 'qbias':
         t = rng.choice(d["quad"])
-        t[2] = str(F(t[2]) + rng.choice([Fraction(1, 4), 1, Fraction(-1, 2)]))
+        t[2] = str(F(t[2]) + delta(rng))
     elif k == 'label':
         old = rng.choice(d["vars"])[0]
         new = enc_label(rng.choice([l for l in gen.LABEL_POOL + ['zz', 11] if str(enc_label(l)) not in {str(v[0]) for v in d["vars"]}]))
@@ -226,7 +270,7 @@ def mutate(rng, spec):
         c["sense"] = rng.choice([x for x in SENSES if x != c["sense"]])
     elif k == 'rhs':
         c = rng.choice(s["cons"])
-        c["rhs"] = str(F(c["rhs"]) + rng.choice([Fraction(1, 4), 1, Fraction(-1, 2)]))
+        c["rhs"] = str(F(c["rhs"]) + delta(rng))
     elif k == 'clabel':
         rng.choice(s["cons"])["label"] = 'other'
     elif k == 'cperm':
@@ -235,7 +279,7 @@ def mutate(rng, spec):
         c = rng.choice(s["cons"])
         if c["lhs"]["lin"]:
             t = rng.choice(c["lhs"]["lin"])
-            t[1] = str(F(t[1]) + rng.choice([Fraction(1, 4), 1]))
+            t[1] = str(F(t[1]) + delta(rng))
         else:
             c["lhs"]["off"] = str(F(c["lhs"]["off"]) + 1)
     elif k == 'dropc':
@@ -315,6 +359,15 @@ def zero_variable_pair(rng):
 
 
 def gen_case(rng, tier):
+    c = gen_pair(rng, tier)
+    # the `places` asked of is_almost_equal: three of the pool (so that the thresholds between them are
+    # separated by the tiny deltas), given by keyword or positionally; the default (7) is always asked too
+    c["places"] = sorted(rng.sample(PLACES_POOL, 3))
+    c["pform"] = rng.choice(['kw', 'pos'])
+    return c
+
+
+def gen_pair(rng, tier):
     if rng.random() < 0.10:
         a, b = zero_variable_pair(rng)
         return {"a": a, "b": b}
@@ -358,6 +411,7 @@ def gen_case(rng, tier):
         used = {str(v[0]) for v in a["desc"]["vars"]}
         fresh = [enc_label(l) for l in gen.LABEL_POOL + ['zz', 11, 13, 'yy', 'ww'] if str(enc_label(l)) not in used]
         mp = {str(v[0]): fresh[i] for i, v in enumerate(a["desc"]["vars"])}
+        mp['conly'] = 'conly_other'          # the constraint-only variable is relabelled as well
         rel = lambda x: mp[str(x)]
         relabel_desc(b["desc"], rel)
         for c in b.get("cons", []):
@@ -526,7 +580,12 @@ def run_case(c):
     ab = call(lambda: a.is_equal(b))
     has_ba = hasattr(b, 'is_equal')
     ba = call(lambda: b.is_equal(a)) if has_ba else None
-    almost = [(p, call(lambda: a.is_almost_equal(b, places=p))) for p in (0, 3, 7)]
+    if c.get("pform") == 'pos':
+        almost = [(p, call(lambda: a.is_almost_equal(b, p))) for p in c.get("places", (0, 3, 7))]
+    else:
+        almost = [(p, call(lambda: a.is_almost_equal(b, places=p))) for p in c.get("places", (0, 3, 7))]
+    if "places" in c:
+        almost.append((7, call(lambda: a.is_almost_equal(b))))       # the documented default
     for tag, r in [("a.is_equal(b)", ab), ("b.is_equal(a)", ba)] + [(f"is_almost_equal(places={p})", r) for p, r in almost]:
         if r is not None and r[0] == "bad":
             py_fail = f"{tag} returned a non-boolean: {r[1]}"
